@@ -61,6 +61,8 @@ fn main() {
     }
     match id.as_str() {
         "C04" | "C05" => props::c04_c05::run(&id, run),
+        "C13" => props::c13::run(run),
+        "C14" => props::c14::run(run),
         _ => {
             eprintln!("no engine for property {id}");
             std::process::exit(2);
